@@ -51,3 +51,24 @@ Theorem C19_old_files_intact : forall refs tr s, safe_trace refs tr ->
   forall q, In q refs -> lookup q (run_trace tr s) = lookup q s.
 Proof. exact safe_run_refs_intact. Qed.
 Print Assumptions C19_old_files_intact.
+
+(* non-vacuity: a dataset {_metadata, part.0.parquet}; the append writes part.1.parquet, then the
+   summary.  The trace is safe; a short write into the new part (crash in call 3) leaves every old
+   file as it was; reusing the name part.0.parquet is rejected by the checker. *)
+Definition ex_p0 : path := [112;97;114;116;46;48]%N.       (* "part.0" *)
+Definition ex_p1 : path := [112;97;114;116;46;49]%N.       (* "part.1" *)
+Definition ex_fs : fs := [(md_name, [1;2;3]%N); (cmd_name, [9]%N); (ex_p0, [7;7]%N)].
+Definition ex_tr (p : path) : list call :=
+  [OpenW p true; Write p [5;6]%N; Write p [8;8;8;8]%N; Close p;
+   OpenW md_name true; Write md_name [1;2;3;4]%N; Close md_name;
+   OpenW cmd_name true; Write cmd_name [9]%N; Close cmd_name].
+
+Example C19_nonvacuous :
+  check_safe_trace [ex_p0] (ex_tr ex_p1) = true
+  /\ check_safe_trace [ex_p0] (ex_tr ex_p0) = false
+  /\ (let s' := step (run_trace (firstn 2 (ex_tr ex_p1)) ex_fs) (Write ex_p1 (firstn 2 [8;8;8;8]%N)) in
+      map (fun q => lookup q s') [md_name; cmd_name; ex_p0; ex_p1]
+      = [Some [1;2;3]; Some [9]; Some [7;7]; Some [5;6;8;8]]%N)
+  /\ map (fun q => lookup q (run_trace (ex_tr ex_p1) ex_fs)) [md_name; ex_p0; ex_p1]
+     = [Some [1;2;3;4]; Some [7;7]; Some [5;6;8;8;8;8]]%N.
+Proof. vm_compute. repeat split; reflexivity. Qed.
